@@ -26,7 +26,7 @@ line = [l for l in open(det) if l.startswith("scratch:") or l.startswith("try_se
 text = " ".join(l.strip() for l in line)
 mm = re.search(r"exit=(\d+)", text)
 idx = re.search(r"plan index (\d+)", text)
-cls = re.search(r"class=(\S+)", text)
+cls = re.search(r"class=(.+?) key=", text)
 out["detection"] = {
     "check": f"./check {prop} --tier quick",
     "caught": bool(mm and mm.group(1) == "1"),
